@@ -309,11 +309,12 @@ let handle (t : string list) : string =
     let fam = fun i -> { a_yields = nat_of_int yl.(int_of_nat i); a_orig = O } in
     let st = ref ainit in
     let outs = List.map (fun op -> match String.split_on_char ':' op with
-      | ["F"; i] -> let (s', _) = astep fam !st (AFake (nat_of_int (int_of_string i), (fun n -> S n))) in st := s'; "F"
+      | ["F"; i] -> let (s', _) = astep fam !st (AFake (nat_of_int (int_of_string i), (fun n -> S (add n n)))) in st := s'; "F"
+      | ["G"; i] -> let (s', _) = astep fam !st (AFake (nat_of_int (int_of_string i), (fun n -> S (S (add n n))))) in st := s'; "F"
       | [("A" | "T"); i] -> (match astep fam !st (AAwait (nat_of_int (int_of_string i))) with
           | (s', Some r) -> st := s';
               let v = int_of_nat r.o_value in
-              Printf.sprintf "%s:%s:%d:%d:%d" i (if v = 0 then "o" else "f" ^ string_of_int (v - 1)) (int_of_nat r.o_polls) (int_of_nat r.o_body_runs) (int_of_nat r.o_evals)
+              Printf.sprintf "%s:%s:%d:%d:%d" i (if v = 0 then "o" else if v mod 2 = 1 then "f" ^ string_of_int ((v - 1) / 2) else "g" ^ string_of_int ((v - 2) / 2)) (int_of_nat r.o_polls) (int_of_nat r.o_body_runs) (int_of_nat r.o_evals)
           | (s', None) -> st := s'; "?")
       | ["D"] -> let (s', _) = astep fam !st ADrop in st := s'; "D"
       | ["N"] -> let (s', _) = astep fam !st ANew in st := s'; "N"
